@@ -136,6 +136,7 @@ type directedNode struct {
 	cdc    *codec
 	trig   *manualTrigger
 	utils  *gatedUtils
+	mem    *membership
 	lh     *leanhelix.MainLoop
 	ctx    context.Context
 	cancel context.CancelFunc
@@ -156,10 +157,11 @@ func newDirectedNode(seed int64) *directedNode {
 		}
 		return ms
 	}
+	d.mem = &membership{me: idBytes(0), committee: committee}
 	cfg := &interfaces.Config{
 		InstanceId:              rtInst,
 		Communication:           &nullComm{d.log},
-		Membership:              &membership{me: idBytes(0), committee: committee},
+		Membership:              d.mem,
 		BlockUtils:              d.utils,
 		KeyManager:              &keyManager{d.kr, idBytes(0)},
 		OverrideElectionTrigger: d.trig,
@@ -786,7 +788,35 @@ func directedSyncStreamThenShutdown(rep *Report, seed int64) {
 	}
 }
 
+// a node whose Membership cannot produce the committee of the next height (the service behind it is down: an error that
+// is not a context error) keeps asking; when it is shut down in that state the asking stops and WaitUntilShutdown
+// returns (C16)
+func directedFailingMembershipThenShutdown(rep *Report, seed int64) {
+	d := newDirectedNode(seed)
+	rep.count("runtime:directed-failing-membership-then-shutdown")
+	go d.lh.UpdateState(d.ctx, nil, nil)
+	if !d.waitFor("NR", 1, 0, 3*time.Second) {
+		rep.count("runtime:directed-setup-failed")
+		d.stop()
+		return
+	}
+	atomic.StoreUint64(&d.mem.failFrom, 2)
+	go d.lh.UpdateState(d.ctx, &vblock{height: 1, id: 9001}, d.cdc.syncProof(1))
+	time.Sleep(300 * time.Millisecond) // the worker is now polling for the committee of height 2
+	before := atomic.LoadInt64(&d.mem.calls)
+	if !d.stop() {
+		rep.finding("C16", "shutdown-hangs", fmt.Sprintf("directed: the Membership keeps failing for height 2 (not a context error); after cancellation WaitUntilShutdown did not return within 4.5 s (%d committee requests before, %d after the cancellation)", before, atomic.LoadInt64(&d.mem.calls)-before), map[string]interface{}{"script": "failing-membership-then-shutdown"})
+		return
+	}
+	after := atomic.LoadInt64(&d.mem.calls)
+	time.Sleep(300 * time.Millisecond)
+	if later := atomic.LoadInt64(&d.mem.calls); later > after {
+		rep.finding("C16", "activity-after-shutdown", fmt.Sprintf("directed: %d committee requests after WaitUntilShutdown returned", later-after), map[string]interface{}{"script": "failing-membership-then-shutdown"})
+	}
+}
+
 func runDirected(rep *Report, seed int64, thorough bool) {
+	directedFailingMembershipThenShutdown(rep, seed+107)
 	directedSyncStreamThenShutdown(rep, seed+106)
 	directedStaleHeightTrigger(rep, seed+104)
 	directedLeaveCommitteeThenShutdown(rep, seed+105)
